@@ -283,11 +283,26 @@ func init() {
 		return strings.Join(parts, ",") + " " + dumpV(p)
 	}
 	runners["repx"] = runners["rep"]
+	var rtOf func(p reflect.Value, viaParse bool) string
 	rt := func(src string, viaParse bool) string {
 		p, e := valueOf(src)
 		if e != "" {
 			return e
 		}
+		return rtOf(p, viaParse)
+	}
+	// rtw <hex backing> <len>: parse the frame, then round-trip the parsed message
+	runners["rtw"] = func(a []string) string {
+		outs := funcReg["Parse"].Call([]reflect.Value{reflect.ValueOf(backingOf(a[0], a[1]))})
+		if !outs[1].IsNil() {
+			return "perr0"
+		}
+		if outs[0].IsNil() {
+			return "pnil0"
+		}
+		return rtOf(outs[0].Elem(), true)
+	}
+	rtOf = func(p reflect.Value, viaParse bool) string {
 		b1, ok := marshalOf(p)
 		if !ok {
 			return "err1"
